@@ -15,7 +15,7 @@ From CM Require Import Base.Dict Model.Location Spec.LocationSpec Proofs.Locatio
   Generated.Tables.
 Local Open Scope Z_scope.
 
-Definition T_now : ltab := mkltab loc_tol_start loc_tol_end sonar_tuple_widen.
+Definition T_now : ltab := mkltab loc_tol_start loc_tol_end sonar_tuple_widen line_filter_rule.
 
 (** A node is handed to on_result_found iff it is a Call/Assign/ClassDef of the module, some result location equals its
     span within the tabulated tolerance (semgrep convention) and the line filter admits it; the changes reported are
@@ -24,7 +24,7 @@ Theorem C18_join_partial : forall rs excl inc nodes,
   (forall n, In n (on_result_found_nodes T_now FDefault (Some rs) excl inc nodes) <->
      In n nodes /\ default_kind (nkind n) = true /\
      (exists r l, In r rs /\ In l (rlocs r) /\ reports T_now (rcls r) (nkind n) (nspan n) l) /\
-     line_filter excl inc (nspan n) = true) /\
+     line_filter T_now excl inc (nspan n) = true) /\
   map ch_line (reported_changes T_now findings_attach_rule FDefault (Some rs) excl inc nodes) =
   map (fun n => pline (sstart (nspan n))) (on_result_found_nodes T_now FDefault (Some rs) excl inc nodes).
 Proof. intros. split; [intros n; apply join_iff|apply changes_of_join]. Qed.
@@ -66,7 +66,12 @@ Proof.
 Qed.
 Print Assumptions C18_short_id.
 
-(** Nested selected calls: with the arguments rebuilt from updated_node every selected call is clean after the run;
+(** Nested selected calls.  What this is (review B15): a statement about a deliberately tiny abstraction (Model/NestedCalls.v:
+    a call = id + "still flagged" bit + argument calls; a selected call becomes unflagged by definition) of libcst's
+    bottom-up traversal, isolating ONE thing - whether the outer call is rebuilt from the node that already holds the
+    rewritten children.  Its only tie to the code is the extracted choice (hardening_args_from / secure_random_target_from);
+    the behaviour itself is observed by the nested programs of the search.
+    With the arguments rebuilt from updated_node every selected call is clean after the run;
     as written (replace_args(original_node, ...)) the rewrite of an inner selected call is discarded. *)
 Definition C18_nested_statement (v : args_from) : Prop :=
   match v with
@@ -101,3 +106,21 @@ Example C18_join_example :
   map nid (on_result_found_nodes T_now FDefault (Some [y_r_inner; y_r_kw]) [] [] [y_inner; y_outer; y_assign; y_h]) = [3%N] /\
   map ch_line (reported_changes T_now findings_attach_rule FDefault (Some [y_r_inner; y_r_kw]) [] [] [y_inner; y_outer; y_assign; y_h]) = [2].
 Proof. split; vm_compute; reflexivity. Qed.
+
+(** Non-vacuity of C18_join_unique and C18_reported_nonnode_dropped (review B18): the discipline holds of the four nodes
+    above; a result set whose only result for the file points at the keyword `a=1` reaches the transformer and is dropped. *)
+Example C18_join_unique_example :
+  discipline T_now RBase [y_inner; y_outer; y_assign; y_h] = true /\
+  match_loc T_now RBase (nkind y_inner) (nspan y_inner) (mkloc y_f (mkpos 2 7) (mkpos 2 10)) = true.
+Proof. split; vm_compute; reflexivity. Qed.
+Example C18_nonnode_dropped_example :
+  let R := of_results [y_r_kw] in
+  findings_for_rule (Some R) [y_f] y_f = Some [y_r_kw] /\
+  (forall n, In n [y_inner; y_outer; y_assign; y_h] -> default_kind (nkind n) = true ->
+     forall r l, In r [y_r_kw] -> In l (rlocs r) -> ~ reports T_now (rcls r) (nkind n) (nspan n) l) /\
+  process_file (Some R) [y_f] y_f = Transform (Some [y_r_kw]).
+Proof.
+  split; [vm_compute; reflexivity |]. split; [| vm_compute; reflexivity].
+  intros n Hn _ r l [<- | []] [<- | []] H. apply match_loc_iff in H.
+  destruct Hn as [<- | [<- | [<- | [<- | []]]]]; vm_compute in H; discriminate.
+Qed.
